@@ -346,6 +346,79 @@ fn run_direct(unit: &Value, out: &mut UnitResult) {
     }
 }
 
+/// Free-running pass (sampled): a peer's connection ends while one of its requests is inside a
+/// non-yielding section of the handler, and the peer reconnects at once. Not expressible on the
+/// simulation's single thread (there the section cannot be in progress while other tasks run).
+/// The oracle is order-only: events of the peer alternate and snapshot + events = listing.
+fn free_running(unit: &Value, out: &mut UnitResult) {
+    use anemo::{Network, Request, Response};
+    use bytes::Bytes;
+    use std::time::Duration;
+    out.evaluations += 1;
+    out.count("free_running_trials", 1);
+    let rt = tokio::runtime::Builder::new_multi_thread().worker_threads(3).enable_all().build().unwrap();
+    let verdict: Result<String, (String, String)> = rt.block_on(async move {
+        let mk = |key: u8| {
+            let svc = tower::service_fn(move |req: Request<Bytes>| async move {
+                if req.route() == "/busy" {
+                    tokio::task::block_in_place(|| std::thread::sleep(Duration::from_millis(1_500)));
+                }
+                Ok::<_, std::convert::Infallible>(Response::new(Bytes::new()))
+            });
+            Network::bind("127.0.0.1:0").private_key([key; 32]).server_name("free").start(svc).map_err(|e| ("setup".to_string(), e.to_string()))
+        };
+        let a = mk(51)?;
+        let b = mk(52)?;
+        let (mut eb, snap) = b.subscribe().map_err(|e| ("setup".to_string(), e.to_string()))?;
+        if !snap.is_empty() {
+            return Err(("setup".into(), "fresh network lists peers".into()));
+        }
+        a.connect(b.local_addr()).await.map_err(|e| ("setup".to_string(), format!("connect: {e}")))?;
+        let (a2, bid) = (a.clone(), b.peer_id());
+        tokio::spawn(async move {
+            let _ = a2.rpc(bid, Request::new(Bytes::new()).with_route("/busy")).await;
+        });
+        tokio::time::sleep(Duration::from_millis(300)).await;
+        // the connection ends while B's handler is inside its blocking section; A comes back at once
+        let _ = a.disconnect(bid);
+        tokio::time::sleep(Duration::from_millis(200)).await;
+        let re = a.connect(b.local_addr()).await;
+        tokio::time::sleep(Duration::from_millis(2_500)).await;
+        let mut listed = false;
+        let mut log = vec![];
+        while let Ok(e) = eb.try_recv() {
+            match &e {
+                PeerEvent::NewPeer(p) if *p == a.peer_id() => {
+                    log.push("New");
+                    if listed {
+                        return Err(("event-alternation".into(), format!("[free-running, multi-thread runtime] the peer reconnected while a request of its old connection was inside a blocking section of the handler: events at the serving side are {log:?} (two NewPeer in a row)")));
+                    }
+                    listed = true;
+                }
+                PeerEvent::LostPeer(p, _) if *p == a.peer_id() => {
+                    log.push("Lost");
+                    if !listed {
+                        return Err(("event-alternation".into(), format!("[free-running, multi-thread runtime] events at the serving side are {log:?} (LostPeer for a peer that is not listed)")));
+                    }
+                    listed = false;
+                }
+                _ => {}
+            }
+        }
+        let really = b.peers().contains(&a.peer_id());
+        if listed != really {
+            return Err(("event-log".into(), format!("[free-running, multi-thread runtime] snapshot + events {log:?} say the peer is {} but peers() says {} (reconnect: {:?})", if listed { "listed" } else { "absent" }, if really { "listed" } else { "absent" }, re.map(|_| ()).map_err(|e| e.to_string()))));
+        }
+        Ok(format!("free-running reconnect-during-blocking-handler events={}", log.len()))
+    });
+    drop(rt);
+    match verdict {
+        Ok(c) => out.class(c),
+        Err((k, m)) if k == "setup" => out.machinery_errors.push(format!("free-running unit: {m}")),
+        Err((k, m)) => out.violation(k, m, json!({"unit": unit})),
+    }
+}
+
 /// Thread interleavings: the loom model lives in its own binary (harness/lockx).
 pub fn run_threads(unit: &Value, out: &mut UnitResult) {
     let exe = std::env::current_exe().unwrap().parent().unwrap().join("lockx");
@@ -392,6 +465,7 @@ impl Check for C04 {
             level: "model_checking",
             rule: "direct: every operation sequence over {add(fresh real connection of peer p in {0,1}, inbound|outbound), remove(p), remove_with_stable_id(p, id of any earlier connection, current or stale), subscribe} up to the depth, for own identity smallest / middle / greatest, executed on the real registry with real QUIC connections and compared after every step with a reference map + event list (states = sequences, transitions = operations executed); history: every history over 3 real networks of {dial, disconnect, short/long partition, restart, wait} up to the depth with a subscription before every step; distinct = distinct outcome shapes".into(),
             assumptions: vec![
+                "a supplementary FREE-RUNNING unit (multi-thread runtime, real sockets: a peer disconnects and reconnects while a request of its old connection is inside a blocking section of the handler; the serving side's events must alternate) samples what the single-thread simulation cannot host; counted under free_running_trials, not part of the exhaustive claim".into(),
                 "thread interleavings of the registry are explored separately (loom, run/lockx) — see DESIGN.md".into(),
                 "tokio's broadcast channel and quinn's close() are trusted leaf operations".into(),
             ],
@@ -413,6 +487,7 @@ impl Check for C04 {
         }
         u.extend(histories::units(tier, "C04"));
         u.push(json!({"kind":"threads","tier":tier.as_str()}));
+        u.insert(0, json!({"kind":"free-running"}));
         u
     }
 
@@ -420,6 +495,7 @@ impl Check for C04 {
         match unit["kind"].as_str().unwrap() {
             "direct" => run_direct(unit, out),
             "threads" => run_threads(unit, out),
+            "free-running" => free_running(unit, out),
             _ => histories::run_unit(tier, unit, out, "C04"),
         }
     }
@@ -430,6 +506,11 @@ impl Check for C04 {
             let mut out = UnitResult::default();
             run_threads(&unit, &mut out);
             return format!("loom model re-run: {} schedules\n{:#?}", out.evaluations, out.violations.iter().map(|v| &v.message).collect::<Vec<_>>());
+        }
+        if unit["kind"] == "free-running" {
+            let mut out = UnitResult::default();
+            free_running(&unit, &mut out);
+            return format!("free-running unit re-run (thread timing is not reproducible): {:?} {:?}", out.classes, out.violations.iter().map(|v| &v.message).collect::<Vec<_>>());
         }
         if unit["kind"] == "direct" {
             let mut out = UnitResult::default();
